@@ -21,7 +21,7 @@ DESIGN_REF = "DESIGN.md §1 C04"
 RULE = (
     "G-full programs (AST first, depth <= 4) whose right spine is a cascade of open structures (last item of "
     "a body is a structure / modifier operand / delimited string with probability 0.7), plus deterministic "
-    "cascades: every nesting of up to two (thorough: three) of 31 structure/modifier forms ending in each of "
+    "cascades: every nesting of up to two (thorough: three) of 35 structure/modifier forms (four of them repeat the open last branch verbatim as an earlier branch) ending in each of "
     "16 kinds of last item, plus (thorough) all ASTs of <= 5 symbols over [ ( { λ ƛ ⟨ @f | closer v ₌ + `a` X. "
     "An evaluation is one comparison closed vs. truncated tree; every k from 1 to the full cascade is "
     "compared. distinct_nontrivial counts distinct truncated texts (k >= 1) that were compared."
@@ -169,6 +169,11 @@ def _forms(F):
         ("after-stuff", lambda b: F.For(None, [plus(), F.If([[one()]])] + b)),
         ("after-comment", lambda b: F.Lam(None, [F.Comment("c;")] + b)),
         ("list-nested-pipe", lambda b: F.ListLit([[F.If([[one()], [plus()]])], b])),
+        # an earlier branch spelled exactly like the (open) last one
+        ("while-same-cond", lambda b: F.While(F._clone(b), b)),
+        ("if-same-branches", lambda b: F.If([F._clone(b), b])),
+        ("if-3-same-branches", lambda b: F.If([F._clone(b), F._clone(b), b])),
+        ("list-same-items", lambda b: F.ListLit([F._clone(b), b])),
     ]
 
 
